@@ -355,4 +355,104 @@ pub(crate) mod verif_u3 {
         kani::cover!(hs[0] == 4 && hs[2] == 1, "delivered in descending order");
         core::mem::forget(ep);
     }
+
+    fn any_ms(max: u64) -> u64 {
+        let v = kani::any::<u16>() as u64;
+        kani::assume(v <= max);
+        v
+    }
+
+    /// Keep-alive kernel (C12 "sessions that merely poll never see an interruption", C05): poll() on a
+    /// Running endpoint with nothing to retransmit and no quality report due; time since the last packet
+    /// sent symbolic (0..10 s); instance: input-retry timer due or not. After the call the endpoint's
+    /// newest transmission is at most KEEP_ALIVE_INTERVAL (200 ms) old: a KeepAlive (own magic) goes out
+    /// iff nothing was sent for strictly more than 200 ms, otherwise nothing is queued; no event is
+    /// raised (silence timers: u_poll_*_timer). The quality-report-due case is outside (two possible
+    /// pushes make the queue position symbolic: solver out of memory at 14 GB). Stub: millis_since_epoch.
+    macro_rules! keep_alive_case {
+        ($name:ident, $s_input:expr) => {
+            #[kani::proof]
+            #[kani::unwind(6)]
+            #[kani::stub(crate::network::protocol::millis_since_epoch, stub_millis)]
+            fn $name() {
+                let now = 100_000u64;
+                instant::set_now_ms(now);
+                let mut ep = mk_ep::<CfgRL>(vec![1], 2, 1, 2, true);
+                let s_send = any_ms(10_000);
+                ep.last_send_time = Instant::from_ms(now - s_send);
+                ep.running_last_quality_report = Instant::from_ms(now - 100);
+                ep.running_last_input_recv = Instant::from_ms(now - $s_input);
+                ep.last_recv_time = Instant::from_ms(now);
+                ep.disconnect_notify_sent = true;
+                ep.disconnect_event_sent = true;
+                let cs = [ConnectionStatus::default(); 2];
+                {
+                    let mut d = ep.poll(&cs);
+                    assert!(d.next().is_none(), "no event from the send timers");
+                    core::mem::forget(d);
+                }
+                let k_due = s_send > 200;
+                if k_due {
+                    assert!(ep.send_queue.len() == 1, "C12: keep-alive after 200 ms without sending");
+                    assert!(matches!(ep.send_queue[0].body, MessageBody::KeepAlive) && ep.send_queue[0].header.magic == MAGIC_LOCAL);
+                    assert!(ep.last_send_time.as_ms() == now);
+                } else {
+                    assert!(ep.send_queue.len() == 0, "nothing due: nothing sent");
+                }
+                assert!(now - ep.last_send_time.as_ms() <= 200, "C12/C05: a polled Running endpoint is never silent for more than the keep-alive interval");
+                assert!(ep.pending_output.len() == 0 && ep.state == ProtocolState::Running);
+                kani::cover!(k_due, "keep-alive");
+                kani::cover!(s_send == 200, "exactly at the interval: not yet");
+                core::mem::forget(ep);
+            }
+        };
+    }
+    keep_alive_case!(u_poll_keep_alive_bound, 0u64);
+    keep_alive_case!(u_poll_keep_alive_bound_retry_due, 5000u64);
+
+    /// After disconnect() (C12 "nothing after Disconnected", C07): poll() on a Disconnected endpoint,
+    /// time since the disconnect symbolic (0..20 s), send/recv silence symbolic: no event is raised and no
+    /// packet is queued however long the peer has been silent; the endpoint becomes Shutdown iff strictly
+    /// more than UDP_SHUTDOWN_TIMER (5000 ms) have passed since disconnect(), and a Shutdown endpoint
+    /// stays Shutdown and silent on the next poll. Stub: millis_since_epoch (virtual clock).
+    #[kani::proof]
+    #[kani::unwind(6)]
+    #[kani::stub(crate::network::protocol::millis_since_epoch, stub_millis)]
+    fn u_poll_after_disconnect_quiet() {
+        let t0 = 100_000u64;
+        instant::set_now_ms(t0);
+        let mut ep = mk_ep::<CfgRL>(vec![1], 2, 1, 2, true);
+        ep.disconnect_notify_sent = kani::any();
+        ep.disconnect_event_sent = kani::any();
+        ep.disconnect();
+        assert!(ep.state == ProtocolState::Disconnected);
+        let dt = any_ms(20_000);
+        let now = t0 + dt;
+        instant::set_now_ms(now);
+        let s_send = any_ms(20_000);
+        let s_recv = any_ms(20_000);
+        ep.last_send_time = Instant::from_ms(now - s_send);
+        ep.last_recv_time = Instant::from_ms(now - s_recv);
+        ep.running_last_quality_report = Instant::from_ms(now - s_send);
+        ep.running_last_input_recv = Instant::from_ms(now - s_recv);
+        let cs = [ConnectionStatus::default(); 2];
+        {
+            let mut d = ep.poll(&cs);
+            assert!(d.next().is_none(), "C12: no event after the disconnect");
+            core::mem::forget(d);
+        }
+        assert!(ep.send_queue.len() == 0, "no packet from a disconnected endpoint's timers");
+        let want_shutdown = dt > UDP_SHUTDOWN_TIMER;
+        assert!((ep.state == ProtocolState::Shutdown) == want_shutdown);
+        assert!(want_shutdown || ep.state == ProtocolState::Disconnected);
+        {
+            let mut d = ep.poll(&cs);
+            assert!(d.next().is_none());
+            core::mem::forget(d);
+        }
+        assert!((ep.state == ProtocolState::Shutdown) == want_shutdown && ep.send_queue.len() == 0);
+        kani::cover!(dt == UDP_SHUTDOWN_TIMER, "exactly at the shutdown timer: not yet");
+        kani::cover!(want_shutdown && s_recv > 2000, "shut down, long silent");
+        core::mem::forget(ep);
+    }
 }
